@@ -1,4 +1,16 @@
 import Gaftools.Proofs.BiccLemmas
+/-!
+# Lemmas for C15 (biccs, continued): the reported components are the blocks
+
+Invariants of `bstep` beyond `BiccLemmas.lean`:
+* `ES`    — discipline of the edge stack (`estack` / `loc`): tree edges of the frames sit at their recorded positions,
+            everything below a frame's position is older than the frame's child, everything above starts in its subtree
+* `Open`  — nodes on the frame stack or incident to the edge stack; a node that is no longer open never becomes open again
+* `Cov`   — every scanned link is inside a reported component or on the edge stack            (RUNG 6)
+* `SepO`, `SepRel` — every reported component hangs below its cut node in a closed part      (RUNG 7 and the top rung)
+* `ConnX`, `Cx`, `Bicon`, `HasEdge` — no single node removal disconnects a reported component (RUNG 8)
+and the bookkeeping of `sortStrings` / `sameSets` / `blocks` for `BiccExact`.
+-/
 namespace Gaftools.Proofs.Bicc2
 open Gaftools.Gfa Gaftools.Algo Gaftools.Spec.Graph Gaftools.Proofs.Algo Gaftools.Proofs.Bicc
 
@@ -422,5 +434,1172 @@ theorem es_step (nb : V → List V) (Vs : List V) (root : V) (s : BSt) (h1 : Inv
     exact es_cut hs h4 (by intro h; rw [h] at hlen; simp at hlen) rfl rfl rfl rfl rfl hE
   · intro f hs hlt
     exact es_pop hs rfl rfl rfl rfl rfl (by intro _; rfl) hE
+
+/-! ## open nodes -/
+
+/-- nodes still on the frame stack or incident to an edge of the edge stack -/
+def Open (s : BSt) (y : V) : Prop := (∃ e ∈ spine s.stack, e.2 = y) ∨ (∃ e ∈ s.estack, y = e.1 ∨ y = e.2)
+
+/-- the target of a back edge is on the frame stack -/
+theorem back_on_stack {nb : V → List V} {Vs : List V} {root : V} {s : BSt} (hsym : ∀ a b, b ∈ nb a → a ∈ nb b)
+    (h1 : Inv1 nb Vs s) (h4 : Inv4 root s) (hX : NoCross nb s)
+    {f : Frame} {rest : List Frame} (hs : s.stack = f :: rest) {nn : V}
+    (hlt : f.ptr < f.nbrs.length) (hnn : nn = f.nbrs.getD f.ptr "") (hvis : nn ∈ s.visited)
+    (hle : D s.disc nn ≤ D s.disc f.child) : ∃ e ∈ spine s.stack, e.2 = nn := by
+  apply Classical.byContradiction
+  intro hno
+  have hfin : ∀ e ∈ spine s.stack, e.2 ≠ nn := fun e he h => hno ⟨e, he, h⟩
+  have hfm : (f.parent, f.child) ∈ spine s.stack := by rw [hs]; simp
+  have hcv : f.child ∈ s.visited := h1.child f (by simp [hs])
+  have hmem : nn ∈ nb f.child := by
+    rw [← h1.nbrs f (by simp [hs]), hnn]; exact getD_mem hlt
+  have hne : D s.disc nn ≠ D s.disc f.child := by
+    intro he
+    exact hfin _ hfm (h4.inj nn hvis f.child hcv he).symm
+  have := hX nn hvis hfin f.child (hsym _ _ hmem) _ hfm (by simp only []; omega)
+  simp only [] at this; omega
+
+theorem open_step (nb : V → List V) (Vs : List V) (root : V) (hsym : ∀ a b, b ∈ nb a → a ∈ nb b) (s : BSt)
+    (h1 : Inv1 nb Vs s) (h4 : Inv4 root s) (hX : NoCross nb s) :
+    ∀ y ∈ s.visited, Open (bstep nb s) y → Open s y := by
+  have adv_case : ∀ f rest, s.stack = f :: rest → ∀ s' : BSt, s'.estack = s.estack → s'.stack = adv f :: rest →
+      ∀ y ∈ s.visited, Open s' y → Open s y := by
+    intro f rest hs s' he hst y _ ho
+    unfold Open at ho ⊢
+    rw [he, hst, spine_adv, ← hs] at ho; exact ho
+  have pop_case : ∀ f rest, s.stack = f :: rest → ∀ s' : BSt, (∀ e ∈ s'.estack, e ∈ s.estack) → s'.stack = rest →
+      ∀ y ∈ s.visited, Open s' y → Open s y := by
+    intro f rest hs s' he hst y _ ho
+    rcases ho with ⟨e, he', hy⟩ | ⟨e, he', hy⟩
+    · left; refine ⟨e, ?_, hy⟩
+      rw [hs, spine_cons]; rw [hst] at he'; exact List.mem_cons_of_mem _ he'
+    · right; exact ⟨e, he e he', hy⟩
+  refine bstep_cases nb s (fun t => ∀ y ∈ s.visited, Open t y → Open s y) ?_ ?_ ?_ ?_ ?_ ?_ ?_ ?_ ?_
+  · intro _ y _ h; exact h
+  · intro f rest hs hlt hp; exact adv_case f rest hs _ rfl rfl
+  · intro f rest nn hs hlt hnn hp hv hle y hy ho
+    rcases ho with ⟨e, he', hy'⟩ | ⟨e, he', hy'⟩
+    · left; refine ⟨e, ?_, hy'⟩
+      rw [hs, ← spine_adv]; exact he'
+    · rcases List.mem_append.mp he' with h | h
+      · right; exact ⟨e, h, hy'⟩
+      · left
+        simp at h; rw [h] at hy'; simp only [] at hy'
+        rcases hy' with hy' | hy'
+        · exact ⟨(f.parent, f.child), by rw [hs]; simp, hy'.symm⟩
+        · rw [hy']; exact back_on_stack hsym h1 h4 hX hs hlt hnn hv hle
+  · intro f rest nn hs hlt hnn hp hv hle; exact adv_case f rest hs _ rfl rfl
+  · intro f rest nn hs hlt hnn hp hv y hy ho
+    have hyn : y ≠ nn := fun h => hv (h ▸ hy)
+    rcases ho with ⟨e, he', hy'⟩ | ⟨e, he', hy'⟩
+    · change e ∈ (f.child, nn) :: spine (adv f :: rest) at he'
+      rcases List.mem_cons.mp he' with h | h
+      · rw [h] at hy'; exact absurd hy'.symm hyn
+      · left; refine ⟨e, ?_, hy'⟩
+        rw [hs, ← spine_adv]; exact h
+    · rcases List.mem_append.mp he' with h | h
+      · right; exact ⟨e, h, hy'⟩
+      · left
+        simp at h; rw [h] at hy'; simp only [] at hy'
+        rcases hy' with hy' | hy'
+        · exact ⟨(f.parent, f.child), by rw [hs]; simp, hy'.symm⟩
+        · exact absurd hy' hyn
+  · intro f rest hs hlt hlen hc
+    exact pop_case f rest hs _ (fun e he => List.mem_of_mem_take he) rfl
+  · intro f rest hs hlt hlen hc
+    exact pop_case f rest hs _ (fun e he => he) rfl
+  · intro f rest hs hlt hlen
+    exact pop_case f rest hs _ (fun e he => List.mem_of_mem_take he) rfl
+  · intro f hs hlt
+    exact pop_case f [] hs _ (fun e he => he) rfl
+
+theorem visited_step (nb : V → List V) (s : BSt) : ∀ y ∈ s.visited, y ∈ (bstep nb s).visited := by
+  refine bstep_cases nb s (fun t => ∀ y ∈ s.visited, y ∈ t.visited) ?_ ?_ ?_ ?_ ?_ ?_ ?_ ?_ ?_
+  all_goals intros
+  all_goals first
+    | assumption
+    | exact List.mem_cons_of_mem _ (by assumption)
+
+/-! ## RUNG 6: every link is covered -/
+
+/-- every scanned link between two different nodes is either inside a reported component or still on the edge stack -/
+def Cov (nb : V → List V) (s : BSt) : Prop :=
+  ∀ u w, Scanned nb s.visited s.stack u w → u ≠ w →
+    (∃ c ∈ s.comps, u ∈ c ∧ w ∈ c) ∨ (u, w) ∈ s.estack ∨ (w, u) ∈ s.estack
+
+theorem cov_init (nb : V → List V) (root : V) : Cov nb (init nb root) := by
+  intro u w h
+  obtain ⟨h1, _, h3⟩ := h
+  simp [init] at h1
+  have := h3 ⟨root, root, 0, nb root⟩ (by simp [init]) h1.symm
+  simp at this
+
+theorem cov_step (nb : V → List V) (Vs : List V) (root : V) (hsym : ∀ a b, b ∈ nb a → a ∈ nb b) (s : BSt)
+    (h1 : Inv1 nb Vs s) (h4 : Inv4 root s) (hE : ES nb root s) (hC : Cov nb s) : Cov nb (bstep nb s) := by
+  have cut_case : ∀ f rest (k : Nat), s.stack = f :: rest → ¬ f.ptr < f.nbrs.length →
+      ∀ u w, Scanned nb s.visited rest u w → u ≠ w →
+        (∃ c ∈ s.comps ++ [nodesOf (s.estack.drop k)], u ∈ c ∧ w ∈ c) ∨ (u, w) ∈ s.estack.take k ∨
+          (w, u) ∈ s.estack.take k := by
+    intro f rest k hs hlt u w hsc hne
+    have hsc' := scanned_pop (h1.nbrs f (by simp [hs])) hlt hsc
+    rw [← hs] at hsc'
+    have split : ∀ e : V × V, e ∈ s.estack → e ∈ s.estack.take k ∨ (e.1 ∈ nodesOf (s.estack.drop k) ∧
+        e.2 ∈ nodesOf (s.estack.drop k)) := by
+      intro e he
+      rw [← List.take_append_drop k s.estack] at he
+      rcases List.mem_append.mp he with h | h
+      · exact Or.inl h
+      · exact Or.inr ⟨mem_nodesOf_iff.mpr ⟨e, h, Or.inl rfl⟩, mem_nodesOf_iff.mpr ⟨e, h, Or.inr rfl⟩⟩
+    rcases hC u w hsc' hne with ⟨c, hc, h⟩ | h | h
+    · exact Or.inl ⟨c, List.mem_append_left _ hc, h⟩
+    · rcases split _ h with h | h
+      · exact Or.inr (Or.inl h)
+      · exact Or.inl ⟨_, List.mem_append_right _ (by simp), h.1, h.2⟩
+    · rcases split _ h with h | h
+      · exact Or.inr (Or.inr h)
+      · exact Or.inl ⟨_, List.mem_append_right _ (by simp), h.2, h.1⟩
+  have pop_case : ∀ f rest, s.stack = f :: rest → ¬ f.ptr < f.nbrs.length →
+      ∀ u w, Scanned nb s.visited rest u w → u ≠ w →
+        (∃ c ∈ s.comps, u ∈ c ∧ w ∈ c) ∨ (u, w) ∈ s.estack ∨ (w, u) ∈ s.estack := by
+    intro f rest hs hlt u w hsc hne
+    have hsc' := scanned_pop (h1.nbrs f (by simp [hs])) hlt hsc
+    rw [← hs] at hsc'
+    exact hC u w hsc' hne
+  apply bstep_cases
+  · intro _; exact hC
+  · intro f rest hs hlt hp u w hsc hne
+    change Scanned nb s.visited (adv f :: rest) u w at hsc
+    rcases scanned_adv hsc with h | ⟨hu, hw⟩
+    · rw [← hs] at h; exact hC u w h hne
+    · right; right
+      rw [hp] at hw
+      have hfm : (f.parent, f.child) ∈ spine s.stack := by rw [hs]; simp
+      have := hE.tree _ hfm (by simp only []; rw [← hu, ← hw]; exact hne)
+      rw [hu, hw]; exact mem_of_getElem? this
+  · intro f rest nn hs hlt hnn hp hv hle u w hsc hne
+    change Scanned nb s.visited (adv f :: rest) u w at hsc
+    show (∃ c ∈ s.comps, u ∈ c ∧ w ∈ c) ∨ (u, w) ∈ s.estack ++ [(f.child, nn)] ∨ (w, u) ∈ s.estack ++ [(f.child, nn)]
+    rcases scanned_adv hsc with h | ⟨hu, hw⟩
+    · rw [← hs] at h
+      rcases hC u w h hne with h | h | h
+      · exact Or.inl h
+      · exact Or.inr (Or.inl (List.mem_append_left _ h))
+      · exact Or.inr (Or.inr (List.mem_append_left _ h))
+    · right; left; rw [hu, hw, ← hnn]; simp
+  · intro f rest nn hs hlt hnn hp hv hle u w hsc hne
+    change Scanned nb s.visited (adv f :: rest) u w at hsc
+    rcases scanned_adv hsc with h | ⟨hu, hw⟩
+    · rw [← hs] at h; exact hC u w h hne
+    · rw [← hnn] at hw
+      have hmem : nn ∈ nb f.child := by
+        rw [← h1.nbrs f (by simp [hs]), hnn]; exact getD_mem hlt
+      have hso := h4.sorted
+      have hsc2 : Scanned nb s.visited s.stack nn f.child := by
+        refine ⟨hv, hsym _ _ hmem, ?_⟩
+        intro g hg hgc
+        exfalso
+        rw [hs] at hg hso
+        rw [spine_cons] at hso
+        rcases List.mem_cons.mp hg with hg | hg
+        · rw [hg] at hgc; rw [hgc] at hle; omega
+        · have := sorted_head hso _ (mem_spine hg)
+          simp only [] at this; rw [hgc] at this; omega
+      rw [hu, hw]
+      rcases hC nn f.child hsc2 (by rw [← hu, ← hw]; exact fun h => hne h.symm) with ⟨c, hc, h⟩ | h | h
+      · exact Or.inl ⟨c, hc, h.2, h.1⟩
+      · exact Or.inr (Or.inr h)
+      · exact Or.inr (Or.inl h)
+  · intro f rest nn hs hlt hnn hp hv u w hsc hne
+    change Scanned nb (nn :: s.visited) (⟨f.child, nn, 0, nb nn⟩ :: adv f :: rest) u w at hsc
+    show (∃ c ∈ s.comps, u ∈ c ∧ w ∈ c) ∨ (u, w) ∈ s.estack ++ [(f.child, nn)] ∨ (w, u) ∈ s.estack ++ [(f.child, nn)]
+    rcases (scanned_push hsc).2 with h | ⟨hu, hw⟩
+    · rw [← hs] at h
+      rcases hC u w h hne with h | h | h
+      · exact Or.inl h
+      · exact Or.inr (Or.inl (List.mem_append_left _ h))
+      · exact Or.inr (Or.inr (List.mem_append_left _ h))
+    · right; left; rw [hu, hw, ← hnn]; simp
+  · intro f rest hs hlt hlen hc; exact cut_case f rest _ hs hlt
+  · intro f rest hs hlt hlen hc; exact pop_case f rest hs hlt
+  · intro f rest hs hlt hlen; exact cut_case f rest _ hs hlt
+  · intro f hs hlt; exact pop_case f [] hs hlt
+
+/-- first bundle of invariants -/
+structure InvA (nb : V → List V) (Vs : List V) (root : V) (s : BSt) : Prop where
+  i1 : Inv1 nb Vs s
+  i2 : Inv2 nb root s
+  i4 : Inv4 root s
+  low : LowOK nb s
+  nocross : NoCross nb s
+  wit : Wit nb s
+  conn : Conn nb s
+  es : ES nb root s
+  cov : Cov nb s
+
+theorem invA_init (nb : V → List V) (Vs : List V) (root : V) (hr : root ∈ Vs) : InvA nb Vs root (init nb root) :=
+  ⟨inv1_init nb Vs root hr, inv2_init nb root, inv4_init nb root, lowOK_init nb root, noCross_init nb root,
+    wit_init nb root, conn_init nb root, es_init nb root, cov_init nb root⟩
+
+theorem invA_step (nb : V → List V) (Vs : List V) (hu : Undirected nb Vs) (root : V) (s : BSt)
+    (h : InvA nb Vs root s) : InvA nb Vs root (bstep nb s) :=
+  ⟨inv1_step nb Vs hu s h.i1, inv2_step nb Vs root s h.i1 h.i2, inv4_step nb Vs root s h.i1 h.i2 h.i4,
+    lowOK_step nb Vs root s h.i1 h.i2 h.i4 h.low, noCross_step nb Vs root s h.i1 h.i2 h.i4 h.nocross,
+    wit_step nb Vs root s h.i1 h.i4 h.wit, conn_step nb Vs root s h.i1 h.i4 h.conn,
+    es_step nb Vs root s h.i1 h.i4 h.es, cov_step nb Vs root hu.symm s h.i1 h.i4 h.es h.cov⟩
+
+theorem invA_bgo (nb : V → List V) (Vs : List V) (hu : Undirected nb Vs) (root : V) (hr : root ∈ Vs) (n : Nat) :
+    InvA nb Vs root (bgo nb n (init nb root)) :=
+  bgo_inv nb (InvA nb Vs root) (invA_step nb Vs hu root) n _ (invA_init nb Vs root hr)
+
+theorem covers_links (nb : V → List V) (Vs : List V) (hu : Undirected nb Vs) (root : V) (hr : root ∈ Vs)
+    (hc : connectedB nb Vs = true) (u v : V) (hu' : u ∈ Vs) (huv : v ∈ nb u) (hne : u ≠ v) :
+    ∃ c ∈ (biccsFrom nb root (biccFuel nb Vs)).1, u ∈ c ∧ v ∈ c := by
+  have h := invA_bgo nb Vs hu root hr (biccFuel nb Vs)
+  have hst := terminates nb Vs hu root hr
+  have hvis := (visits_all nb Vs hu root hr hc).2
+  show ∃ c ∈ (bgo nb (biccFuel nb Vs) (init nb root)).comps, u ∈ c ∧ v ∈ c
+  generalize bgo nb (biccFuel nb Vs) (init nb root) = s at h hst hvis
+  have hsc : Scanned nb s.visited s.stack u v := by
+    refine ⟨(hvis u).mpr hu', huv, ?_⟩
+    rw [hst]; intro g hg; simp at hg
+  have hest : s.estack = [] := h.es.bot0 (by rw [hst]; simp)
+  rcases h.cov u v hsc hne with h' | h' | h'
+  · exact h'
+  · rw [hest] at h'; simp at h'
+  · rw [hest] at h'; simp at h'
+
+/-! ## emission of a component -/
+
+/-- the situation in which a component is emitted: the exhausted top frame is not the root frame and its low point
+    does not reach above its parent -/
+structure Emit (s : BSt) (f : Frame) (rest : List Frame) : Prop where
+  hs : s.stack = f :: rest
+  hrne : rest ≠ []
+  hlt : ¬ f.ptr < f.nbrs.length
+  hlow : D s.disc f.parent ≤ D s.low f.child
+
+/-- one step either leaves the reported components alone or emits the edge-stack suffix of the top frame -/
+theorem comps_step (nb : V → List V) (root : V) (s : BSt) (h4 : Inv4 root s) :
+    (bstep nb s).comps = s.comps ∨ ∃ f rest, Emit s f rest ∧
+      (bstep nb s).comps = s.comps ++ [nodesOf (s.estack.drop (Pos s.loc (f.parent, f.child)))] ∧
+      (bstep nb s).estack = s.estack.take (Pos s.loc (f.parent, f.child)) ∧ (bstep nb s).stack = rest := by
+  refine bstep_cases nb s (fun t => t.comps = s.comps ∨ ∃ f rest, Emit s f rest ∧
+      t.comps = s.comps ++ [nodesOf (s.estack.drop (Pos s.loc (f.parent, f.child)))] ∧
+      t.estack = s.estack.take (Pos s.loc (f.parent, f.child)) ∧ t.stack = rest) ?_ ?_ ?_ ?_ ?_ ?_ ?_ ?_ ?_
+  · intro _; exact Or.inl rfl
+  · intro f rest hs hlt hp; exact Or.inl rfl
+  · intro f rest nn hs hlt hnn hp hv hle; exact Or.inl rfl
+  · intro f rest nn hs hlt hnn hp hv hle; exact Or.inl rfl
+  · intro f rest nn hs hlt hnn hp hv; exact Or.inl rfl
+  · intro f rest hs hlt hlen hc
+    exact Or.inr ⟨f, rest, ⟨hs, by intro h; rw [h] at hlen; simp at hlen, hlt, hc⟩, rfl, rfl, rfl⟩
+  · intro f rest hs hlt hlen hc; exact Or.inl rfl
+  · intro f rest hs hlt hlen
+    right
+    have hch := h4.chain
+    rw [hs, spine_cons] at hch
+    have hproot : f.parent = root := parent_root hch (by simpa [spine] using hlen)
+    exact ⟨f, rest, ⟨hs, by intro h; rw [h] at hlen; simp at hlen, hlt, by rw [hproot, h4.droot]; exact Nat.zero_le _⟩,
+      rfl, rfl, rfl⟩
+  · intro f hs hlt; exact Or.inl rfl
+
+/-- facts about the top frame when a component is emitted -/
+theorem emit_basic {nb : V → List V} {Vs : List V} {root : V} {s : BSt} (h1 : Inv1 nb Vs s) (h4 : Inv4 root s)
+    {f : Frame} {rest : List Frame} (hem : Emit s f rest) :
+    (f.parent, f.child) ∈ spine s.stack ∧ D s.disc f.parent < D s.disc f.child ∧ f.child ≠ f.parent ∧
+      f.parent ∈ s.visited ∧ f.child ∈ s.visited ∧ (∀ g ∈ spine rest, D s.disc g.2 < D s.disc f.child) := by
+  have hso := h4.sorted; have hch := h4.chain
+  rw [hem.hs, spine_cons] at hso hch
+  have hsrne : spine rest ≠ [] := by intro h'; simp [spine] at h'; exact hem.hrne h'
+  have hpc := parent_lt_child hso hch hsrne
+  simp only [] at hpc
+  refine ⟨by rw [hem.hs]; simp, hpc, ?_, h1.parent f (by simp [hem.hs]), h1.child f (by simp [hem.hs]), ?_⟩
+  · intro he; rw [he] at hpc; omega
+  · intro g hg; exact sorted_head hso g hg
+
+/-- nodes of the emitted suffix: the parent of the top frame and nodes of the subtree of its child -/
+theorem emit_nodes {nb : V → List V} {Vs : List V} {root : V} (hsym : ∀ a b, b ∈ nb a → a ∈ nb b) {s : BSt}
+    (h1 : Inv1 nb Vs s) (h2 : Inv2 nb root s) (h4 : Inv4 root s) (hL : LowOK nb s) (hX : NoCross nb s)
+    (hE : ES nb root s) {f : Frame} {rest : List Frame} (hem : Emit s f rest) :
+    ∀ v ∈ nodesOf (s.estack.drop (Pos s.loc (f.parent, f.child))),
+      v = f.parent ∨ (v ∈ s.visited ∧ D s.disc f.child ≤ D s.disc v) := by
+  obtain ⟨hfm, hpc, hcp, hpv, hcv, _⟩ := emit_basic h1 h4 hem
+  have hcl := closure nb Vs root hsym s h1 h2 h4 hL hX f rest hem.hs hem.hlt hem.hlow
+  intro v hv
+  obtain ⟨e, he, hve⟩ := mem_nodesOf_iff.mp hv
+  obtain ⟨i, hki, hie⟩ := mem_drop_iff.mp he
+  by_cases hik : i = Pos s.loc (f.parent, f.child)
+  · have := hE.tree _ hfm hcp
+    rw [← hik, hie] at this
+    have he' : e = (f.parent, f.child) := Option.some.inj this
+    rw [he'] at hve; simp only [] at hve
+    rcases hve with h | h
+    · exact Or.inl h
+    · right; rw [h]; exact ⟨hcv, Nat.le_refl _⟩
+  · have hab := hE.above _ hfm hcp i e (by omega) hie
+    obtain ⟨r1, r2, r3⟩ := hE.real e (mem_of_getElem? hie)
+    simp only [] at hab
+    rcases hve with h | h
+    · right; rw [h]; exact ⟨r1, hab⟩
+    · by_cases hep : e.2 = f.parent
+      · left; rw [h]; exact hep
+      · right; rw [h]; exact hcl e.1 r1 hab e.2 r3 hep
+
+/-- after the emission the subtree of the popped child is closed -/
+theorem emit_closed {nb : V → List V} {Vs : List V} {root : V} {s t : BSt} (h1 : Inv1 nb Vs s) (h4 : Inv4 root s)
+    (hE : ES nb root s) {f : Frame} {rest : List Frame} (hem : Emit s f rest)
+    (hst : t.stack = rest) (het : t.estack = s.estack.take (Pos s.loc (f.parent, f.child))) {y : V}
+    (hle : D s.disc f.child ≤ D s.disc y) : ¬ Open t y := by
+  obtain ⟨hfm, hpc, hcp, hpv, hcv, hbel⟩ := emit_basic h1 h4 hem
+  rintro (⟨e, he, hy⟩ | ⟨e, he, hy⟩)
+  · rw [hst] at he
+    have := hbel e he
+    rw [hy] at this; omega
+  · rw [het] at he
+    obtain ⟨i, hik, hie⟩ := mem_take_iff.mp he
+    have := hE.below _ hfm hcp i e hik hie
+    simp only [] at this
+    rcases hy with h | h <;> rw [h] at hle <;> omega
+
+/-! ## reported components: separation (RUNG 7) -/
+
+/-- a cut node `x` and a node `c`: the first component hangs at `c` in the graph without `x`, the second one does not -/
+def SepRel (nb : V → List V) (Vs : List V) (C C' : List V) : Prop :=
+  ∃ x c, x ∈ Vs ∧ (∀ v ∈ C, v ≠ x → Reach (nbWithout nb x) c v) ∧ (∀ v ∈ C', v ≠ x → ¬ Reach (nbWithout nb x) c v)
+
+/-- every reported component hangs below its cut node in a part of the graph that is closed -/
+def SepO (nb : V → List V) (Vs : List V) (s : BSt) : Prop :=
+  ∀ C ∈ s.comps, ∃ x c, x ∈ Vs ∧ (∀ v ∈ C, v ≠ x → Reach (nbWithout nb x) c v) ∧
+    (∀ y, Reach (nbWithout nb x) c y → y ∈ s.visited ∧ ¬ Open s y)
+
+theorem sepO_init (nb : V → List V) (Vs : List V) (root : V) : SepO nb Vs (init nb root) := by
+  intro C hC; simp [init] at hC
+
+/-- the emitted component hangs at the popped child without the parent, in a closed part -/
+theorem emit_sep {nb : V → List V} {Vs : List V} {root : V} (hsym : ∀ a b, b ∈ nb a → a ∈ nb b) {s : BSt}
+    (h1 : Inv1 nb Vs s) (h2 : Inv2 nb root s) (h4 : Inv4 root s) (hL : LowOK nb s) (hX : NoCross nb s)
+    (hT : Conn nb s) (hE : ES nb root s) {f : Frame} {rest : List Frame} (hem : Emit s f rest) :
+    (∀ v ∈ nodesOf (s.estack.drop (Pos s.loc (f.parent, f.child))), v ≠ f.parent →
+      Reach (nbWithout nb f.parent) f.child v) ∧
+    (∀ y, Reach (nbWithout nb f.parent) f.child y → y ∈ s.visited ∧ D s.disc f.child ≤ D s.disc y) := by
+  obtain ⟨hfm, hpc, hcp, hpv, hcv, _⟩ := emit_basic h1 h4 hem
+  constructor
+  · intro v hv hvp
+    rcases emit_nodes hsym h1 h2 h4 hL hX hE hem v hv with h | ⟨h, h'⟩
+    · exact absurd h hvp
+    · exact hT _ hfm hcp v h h'
+  · have hcl := closure nb Vs root hsym s h1 h2 h4 hL hX f rest hem.hs hem.hlt hem.hlow
+    exact reach_closed (P := fun y => y ∈ s.visited ∧ D s.disc f.child ≤ D s.disc y)
+      (fun u hu' w hw hwp => hcl u hu'.1 hu'.2 w hw hwp) ⟨hcv, Nat.le_refl _⟩
+
+theorem sep_step (nb : V → List V) (Vs : List V) (root : V) (hsym : ∀ a b, b ∈ nb a → a ∈ nb b) (s : BSt)
+    (h1 : Inv1 nb Vs s) (h2 : Inv2 nb root s) (h4 : Inv4 root s) (hL : LowOK nb s) (hX : NoCross nb s)
+    (hT : Conn nb s) (hE : ES nb root s) (hO : SepO nb Vs s) (hP : s.comps.Pairwise (SepRel nb Vs)) :
+    SepO nb Vs (bstep nb s) ∧ (bstep nb s).comps.Pairwise (SepRel nb Vs) := by
+  have hvis := visited_step nb s
+  have hop := open_step nb Vs root hsym s h1 h4 hX
+  have old : ∀ C ∈ s.comps, ∃ x c, x ∈ Vs ∧ (∀ v ∈ C, v ≠ x → Reach (nbWithout nb x) c v) ∧
+      (∀ y, Reach (nbWithout nb x) c y → y ∈ (bstep nb s).visited ∧ ¬ Open (bstep nb s) y) := by
+    intro C hC
+    obtain ⟨x, c, hx, ha, hb⟩ := hO C hC
+    exact ⟨x, c, hx, ha, fun y hy => ⟨hvis y (hb y hy).1, fun ho => (hb y hy).2 (hop y (hb y hy).1 ho)⟩⟩
+  rcases comps_step nb root s h4 with heq | ⟨f, rest, hem, hco, hes, hst⟩
+  · constructor
+    · intro C hC; rw [heq] at hC; exact old C hC
+    · rw [heq]; exact hP
+  · obtain ⟨hfm, hpc, hcp, hpv, hcv, _⟩ := emit_basic h1 h4 hem
+    obtain ⟨hs1, hs2⟩ := emit_sep hsym h1 h2 h4 hL hX hT hE hem
+    constructor
+    · intro C hC
+      rw [hco] at hC
+      rcases List.mem_append.mp hC with h | h
+      · exact old C h
+      · simp at h
+        refine ⟨f.parent, f.child, h1.sub _ hpv, by rw [h]; exact hs1, ?_⟩
+        intro y hy
+        exact ⟨hvis y (hs2 y hy).1, emit_closed h1 h4 hE hem hst hes (hs2 y hy).2⟩
+    · rw [hco, List.pairwise_append]
+      refine ⟨hP, by simp, ?_⟩
+      intro C hC C' hC'
+      simp at hC'
+      obtain ⟨x, c, hx, ha, hb⟩ := hO C hC
+      refine ⟨x, c, hx, ha, ?_⟩
+      intro v hv _ hr
+      apply (hb v hr).2
+      right
+      rw [hC'] at hv
+      obtain ⟨e, he, hve⟩ := mem_nodesOf_iff.mp hv
+      exact ⟨e, List.mem_of_mem_drop he, hve⟩
+
+/-! ## RUNG 8: no single node removal disconnects a reported component -/
+
+/-- the subtree of a stack frame is connected to the frame's child avoiding any node outside the subtree -/
+def ConnXP (nb : V → List V) (vis : List V) (disc : List (V × Nat)) (sp : List (V × V)) : Prop :=
+  ∀ g ∈ sp, ∀ y ∈ vis, D disc g.2 ≤ D disc y → ∀ x, (x ∈ vis → D disc x < D disc g.2) →
+    Reach (nbWithout nb x) g.2 y
+
+abbrev ConnX (nb : V → List V) (s : BSt) : Prop := ConnXP nb s.visited s.disc (spine s.stack)
+
+theorem connX_init (nb : V → List V) (root : V) : ConnX nb (init nb root) := by
+  intro g hg y hy _ x _
+  simp [init] at hg hy
+  subst hg; subst hy
+  exact Reach.refl _
+
+theorem connX_step (nb : V → List V) (Vs : List V) (root : V) (s : BSt) (h1 : Inv1 nb Vs s)
+    (h4 : Inv4 root s) (hT : ConnX nb s) : ConnX nb (bstep nb s) := by
+  have hsc := spine_child h1
+  have adv_case : ∀ f rest, s.stack = f :: rest → ConnXP nb s.visited s.disc (spine (adv f :: rest)) := by
+    intro f rest hs; rw [spine_adv, ← hs]; exact hT
+  have pop_case : ∀ f rest, s.stack = f :: rest → ConnXP nb s.visited s.disc (spine rest) := by
+    intro f rest hs
+    unfold ConnX at hT; rw [hs, spine_cons] at hT
+    intro g hg
+    exact hT g (List.mem_cons_of_mem _ hg)
+  apply bstep_cases
+  · intro _; exact hT
+  · intro f rest hs hlt hp; exact adv_case f rest hs
+  · intro f rest nn hs hlt hnn hp hv hle; exact adv_case f rest hs
+  · intro f rest nn hs hlt hnn hp hv hle; exact adv_case f rest hs
+  · intro f rest nn hs hlt hnn hp hv
+    show ConnXP nb (nn :: s.visited) (setKV nn s.disc.length s.disc) ((f.child, nn) :: spine (adv f :: rest))
+    rw [spine_adv, ← hs]
+    have hne : ∀ v ∈ s.visited, v ≠ nn := fun v hv' he => hv (he ▸ hv')
+    have hso := h4.sorted
+    intro g hg y hy hle x hx
+    rcases List.mem_cons.mp hg with hg | hg
+    · rw [hg] at hle ⊢; simp only [] at hle ⊢
+      rcases List.mem_cons.mp hy with hy | hy
+      · rw [hy]; exact Reach.refl _
+      · exfalso
+        rw [D_setKV, D_setKV, if_neg (hne y hy)] at hle; simp only [if_true] at hle
+        have := h4.dlt y hy; omega
+    · have hgv := hsc g hg
+      rw [D_setKV, if_neg (hne _ hgv.1)] at hle
+      have hxn : x ≠ nn := by
+        intro he
+        have := hx (by rw [he]; simp)
+        rw [he, D_setKV, D_setKV, if_neg (hne _ hgv.1)] at this; simp only [if_true] at this
+        have := h4.dlt _ hgv.1; omega
+      have hx' : x ∈ s.visited → D s.disc x < D s.disc g.2 := by
+        intro hxv
+        have := hx (List.mem_cons_of_mem _ hxv)
+        rw [D_setKV, D_setKV, if_neg (hne _ hgv.1), if_neg (hne x hxv)] at this
+        exact this
+      rcases List.mem_cons.mp hy with hy | hy
+      · rw [hy]
+        have hfv : f.child ∈ s.visited := h1.child f (by simp [hs])
+        have hgf : D s.disc g.2 ≤ D s.disc f.child := by
+          rw [hs, spine_cons] at hg hso
+          rcases List.mem_cons.mp hg with hg | hg
+          · rw [hg]; exact Nat.le_refl _
+          · exact Nat.le_of_lt (sorted_head hso g hg)
+        have hr := hT g hg f.child hfv hgf x hx'
+        apply Reach.step hr
+        apply nbWithout_mem.mpr
+        refine ⟨?_, ?_, hxn.symm⟩
+        · intro he
+          have := hx' (he ▸ hfv)
+          rw [← he] at this; omega
+        · rw [← h1.nbrs f (by simp [hs]), hnn]; exact getD_mem hlt
+      · rw [D_setKV, if_neg (hne y hy)] at hle
+        exact hT g hg y hy hle x hx'
+  · intro f rest hs hlt hlen hc; exact pop_case f rest hs
+  · intro f rest hs hlt hlen hc; exact pop_case f rest hs
+  · intro f rest hs hlt hlen; exact pop_case f rest hs
+  · intro f hs hlt; exact pop_case f [] hs
+
+/-- for a fixed node `x` other than the root: every discovered node is connected to the root avoiding `x`, or lies in
+    the subtree of the child of `x` being explored, or is closed (its component was cut off) -/
+def Cx (nb : V → List V) (root x : V) (s : BSt) : Prop :=
+  ∀ y ∈ s.visited, y ≠ x → Reach (nbWithout nb x) root y ∨
+    (∃ g ∈ spine s.stack, g.1 = x ∧ D s.disc g.2 ≤ D s.disc y) ∨ ¬ Open s y
+
+theorem cx_init (nb : V → List V) (root x : V) : Cx nb root x (init nb root) := by
+  intro y hy _
+  simp [init] at hy
+  rw [hy]; exact Or.inl (Reach.refl _)
+
+theorem cx_congr {nb : V → List V} {root x : V} {s t : BSt} (hv : t.visited = s.visited) (hd : t.disc = s.disc)
+    (hsp : spine t.stack = spine s.stack) (hop : ∀ y ∈ s.visited, Open t y → Open s y)
+    (hC : Cx nb root x s) : Cx nb root x t := by
+  intro y hy hyx
+  rw [hv] at hy
+  rcases hC y hy hyx with h | h | h
+  · exact Or.inl h
+  · rw [hsp, hd]; exact Or.inr (Or.inl h)
+  · exact Or.inr (Or.inr (fun ho => h (hop y hy ho)))
+
+/-- popping a frame whose subtree gets closed (cut) or whose parent is not `x` -/
+theorem cx_pop {nb : V → List V} {root x : V} {s t : BSt} {f : Frame} {rest : List Frame} (hs : s.stack = f :: rest)
+    (hv : t.visited = s.visited) (hd : t.disc = s.disc)
+    (hst : t.stack = rest) (hop : ∀ y ∈ s.visited, Open t y → Open s y)
+    (htop : f.parent = x → ∀ y, D s.disc f.child ≤ D s.disc y → ¬ Open t y)
+    (hC : Cx nb root x s) : Cx nb root x t := by
+  intro y hy hyx
+  rw [hv] at hy
+  rcases hC y hy hyx with h | ⟨g, hg, hgx, hle⟩ | h
+  · exact Or.inl h
+  · rw [hs, spine_cons] at hg
+    rcases List.mem_cons.mp hg with hg | hg
+    · rw [hg] at hgx hle; simp only [] at hgx hle
+      exact Or.inr (Or.inr (htop hgx y hle))
+    · rw [hst, hd]; exact Or.inr (Or.inl ⟨g, hg, hgx, hle⟩)
+  · exact Or.inr (Or.inr (fun ho => h (hop y hy ho)))
+
+theorem cx_step (nb : V → List V) (Vs : List V) (hu : Undirected nb Vs) (root x : V) (hxr : x ≠ root)
+    (s : BSt) (h1 : Inv1 nb Vs s) (h4 : Inv4 root s) (hX : NoCross nb s) (hW : Wit nb s) (hT : Conn nb s)
+    (hE : ES nb root s) (hC : Cx nb root x s) : Cx nb root x (bstep nb s) := by
+  have hsc := spine_child h1
+  have hop := open_step nb Vs root hu.symm s h1 h4 hX
+  refine bstep_cases nb s (fun t => bstep nb s = t → Cx nb root x t) ?_ ?_ ?_ ?_ ?_ ?_ ?_ ?_ ?_ rfl
+  · intro _ _; exact hC
+  · intro f rest hs hlt hp heq
+    rw [heq] at hop
+    exact cx_congr (s := s) rfl rfl (by rw [hs]; rfl) hop hC
+  · intro f rest nn hs hlt hnn hp hv hle heq
+    rw [heq] at hop
+    exact cx_congr (s := s) rfl rfl (by rw [hs]; rfl) hop hC
+  · intro f rest nn hs hlt hnn hp hv hle heq
+    rw [heq] at hop
+    exact cx_congr (s := s) rfl rfl (by rw [hs]; rfl) hop hC
+  · intro f rest nn hs hlt hnn hp hv heq
+    have hop' := hop
+    rw [heq] at hop'
+    have hne : ∀ v ∈ s.visited, v ≠ nn := fun v hv' he => hv (he ▸ hv')
+    have hfv : f.child ∈ s.visited := h1.child f (by simp [hs])
+    have hfm : (f.parent, f.child) ∈ spine s.stack := by rw [hs]; simp
+    have hmem : nn ∈ nb f.child := by
+      rw [← h1.nbrs f (by simp [hs]), hnn]; exact getD_mem hlt
+    intro y hy hyx
+    change y ∈ nn :: s.visited at hy
+    show Reach (nbWithout nb x) root y ∨
+      (∃ g ∈ (f.child, nn) :: spine (adv f :: rest), g.1 = x ∧
+        D (setKV nn s.disc.length s.disc) g.2 ≤ D (setKV nn s.disc.length s.disc) y) ∨ ¬ Open _ y
+    rw [spine_adv, ← hs]
+    have old : ∀ g ∈ spine s.stack, g.1 = x → ∀ y' ∈ s.visited, D s.disc g.2 ≤ D s.disc y' →
+        D s.disc y' ≤ D (setKV nn s.disc.length s.disc) y →
+        ∃ g ∈ (f.child, nn) :: spine s.stack, g.1 = x ∧
+          D (setKV nn s.disc.length s.disc) g.2 ≤ D (setKV nn s.disc.length s.disc) y := by
+      intro g hg hgx y' hy' hle hle'
+      refine ⟨g, List.mem_cons_of_mem _ hg, hgx, ?_⟩
+      rw [D_setKV (v := g.2), if_neg (hne _ (hsc g hg).1)]; omega
+    rcases List.mem_cons.mp hy with hy | hy
+    · by_cases hfx : f.child = x
+      · right; left
+        exact ⟨(f.child, nn), by simp, hfx, by rw [hy]; exact Nat.le_refl _⟩
+      · rcases hC f.child hfv hfx with h | ⟨g, hg, hgx, hle⟩ | h
+        · left
+          rw [hy]
+          exact Reach.step h (nbWithout_mem.mpr ⟨hfx, hmem, by rw [← hy]; exact hyx⟩)
+        · right; left
+          apply old g hg hgx f.child hfv hle
+          rw [hy, D_setKV, if_pos rfl]; exact Nat.le_of_lt (h4.dlt _ hfv)
+        · exact absurd (Or.inl ⟨_, hfm, rfl⟩) h
+    · rcases hC y hy hyx with h | ⟨g, hg, hgx, hle⟩ | h
+      · exact Or.inl h
+      · right; left
+        apply old g hg hgx y hy hle
+        rw [D_setKV, if_neg (hne y hy)]; exact Nat.le_refl _
+      · exact Or.inr (Or.inr (fun ho => h (hop' y hy ho)))
+  · intro f rest hs hlt hlen hc heq
+    have hem : Emit s f rest := ⟨hs, by intro h; rw [h] at hlen; simp at hlen, hlt, hc⟩
+    rw [heq] at hop
+    exact cx_pop hs rfl rfl rfl hop (fun _ y hle => emit_closed h1 h4 hE hem rfl rfl hle) hC
+  · intro f rest hs hlt hlen hc heq
+    have hop' := hop
+    rw [heq] at hop'
+    by_cases hpa : f.parent = x
+    · have hso := h4.sorted; have hch := h4.chain
+      have hfc := frame_cases _ hso hch
+      rw [hs, spine_cons] at hso hch
+      have hrne : spine rest ≠ [] := by intro h; simp [spine] at h; rw [h] at hlen; simp at hlen
+      have hpc := parent_lt_child hso hch hrne
+      simp only [] at hpc
+      have hu' := nbWithout_undirected hu x
+      have hcne : f.child ≠ f.parent := by intro he; rw [he] at hpc; omega
+      have hfm : (f.parent, f.child) ∈ spine s.stack := by rw [hs]; simp
+      have hTf := hT (f.parent, f.child) hfm hcne
+      simp only [] at hTf
+      rw [hpa] at hTf hpc hc
+      have hroot : Reach (nbWithout nb x) root f.child := by
+        obtain ⟨u, w, huv, hwv, hcu, hwu, hdw⟩ := hW (f.parent, f.child) hfm
+        simp only [] at hcu hdw
+        have hua : u ≠ x := by intro he; rw [he] at hcu; omega
+        have hwa : w ≠ x := by intro he; rw [he] at hdw; omega
+        have hwnb : w ∈ nb u := by
+          rcases hwu with h | h
+          · exact h
+          · rw [h] at hdw; omega
+        have hrw : Reach (nbWithout nb x) root w := by
+          rcases hC w hwv hwa with h | ⟨g, hg, hgx, hle⟩ | h
+          · exact h
+          · exfalso
+            rcases hfc g hg with h | h
+            · exact hxr (hgx.symm.trans h.1)
+            · rw [hgx] at h; omega
+          · exfalso
+            apply h
+            left
+            apply Classical.byContradiction
+            intro hno
+            have hfin : ∀ e ∈ spine s.stack, e.2 ≠ w := fun e he h' => hno ⟨e, he, h'⟩
+            have := hX w hwv hfin u (hu.symm u w hwnb) _ hfm (by simp only []; omega)
+            simp only [] at this; omega
+        have hru : Reach (nbWithout nb x) root u :=
+          Reach.step hrw (nbWithout_mem.mpr ⟨hwa, hu.symm u w hwnb, hua⟩)
+        exact Reach.trans hru (Reach.symm hu'.symm (hTf u huv hcu))
+      intro y hy hyx
+      change y ∈ s.visited at hy
+      rcases hC y hy hyx with h | ⟨g, hg, hgx, hle⟩ | h
+      · exact Or.inl h
+      · rw [hs, spine_cons] at hg
+        rcases List.mem_cons.mp hg with hg | hg
+        · rw [hg] at hle; simp only [] at hle
+          exact Or.inl (Reach.trans hroot (hTf y hy hle))
+        · exact Or.inr (Or.inl ⟨g, hg, hgx, hle⟩)
+      · exact Or.inr (Or.inr (fun ho => h (hop' y hy ho)))
+    · exact cx_pop hs rfl rfl rfl hop' (fun h => absurd h hpa) hC
+  · intro f rest hs hlt hlen heq
+    have hch := h4.chain
+    rw [hs, spine_cons] at hch
+    have hproot : f.parent = root := parent_root hch (by simpa [spine] using hlen)
+    rw [heq] at hop
+    exact cx_pop hs rfl rfl rfl hop (fun h => absurd (h.symm.trans hproot) hxr) hC
+  · intro f hs hlt heq
+    have hch := h4.chain
+    rw [hs] at hch
+    have hproot : f.parent = root := hch.1
+    rw [heq] at hop
+    exact cx_pop hs rfl rfl rfl hop (fun h => absurd (h.symm.trans hproot) hxr) hC
+
+/-- no single node removal disconnects the node set -/
+def Bicon (nb : V → List V) (C : List V) : Prop :=
+  ∀ x a b, a ∈ C → b ∈ C → a ≠ x → b ≠ x → Reach (nbWithout nb x) a b
+
+/-- every node of the set has a neighbour in the set other than itself -/
+def HasEdge (nb : V → List V) (C : List V) : Prop := ∀ v ∈ C, ∃ w ∈ C, w ≠ v ∧ w ∈ nb v
+
+theorem emit_bicon {nb : V → List V} {Vs : List V} {root : V} (hu : Undirected nb Vs) {s : BSt}
+    (h1 : Inv1 nb Vs s) (h2 : Inv2 nb root s) (h4 : Inv4 root s) (hL : LowOK nb s) (hX : NoCross nb s)
+    (hT : Conn nb s) (hTX : ConnX nb s) (hE : ES nb root s) (hCx : ∀ x, x ≠ root → Cx nb root x s)
+    {f : Frame} {rest : List Frame} (hem : Emit s f rest) :
+    Bicon nb (nodesOf (s.estack.drop (Pos s.loc (f.parent, f.child)))) := by
+  obtain ⟨hfm, hpc, hcp, hpv, hcv, hbel⟩ := emit_basic h1 h4 hem
+  have hnodes := emit_nodes hu.symm h1 h2 h4 hL hX hE hem
+  have hcnb : f.child ∈ nb f.parent := (hE.real _ (mem_of_getElem? (hE.tree _ hfm hcp))).2.2
+  intro x a b ha hb hax hbx
+  have hu' := nbWithout_undirected hu x
+  by_cases hxp : x = f.parent
+  · have key := (emit_sep hu.symm h1 h2 h4 hL hX hT hE hem).1
+    rw [hxp] at hax hbx hu' ⊢
+    exact Reach.trans (Reach.symm hu'.symm (key a ha hax)) (key b hb hbx)
+  · by_cases hxs : x ∈ s.visited ∧ D s.disc f.child ≤ D s.disc x
+    · have hxr : x ≠ root := by
+        intro he; rw [he, h4.droot] at hxs; omega
+      have key : ∀ v ∈ nodesOf (s.estack.drop (Pos s.loc (f.parent, f.child))), v ≠ x →
+          Reach (nbWithout nb x) root v := by
+        intro v hv hvx
+        have hvv : v ∈ s.visited := by
+          rcases hnodes v hv with h | h
+          · rw [h]; exact hpv
+          · exact h.1
+        have hvo : Open s v := by
+          right
+          obtain ⟨e, he, hve⟩ := mem_nodesOf_iff.mp hv
+          exact ⟨e, List.mem_of_mem_drop he, hve⟩
+        rcases hCx x hxr v hvv hvx with h | ⟨g, hg, hgx, hle⟩ | h
+        · exact h
+        · exfalso
+          have hfc := frame_cases _ h4.sorted h4.chain g hg
+          rw [hem.hs, spine_cons] at hg
+          rcases List.mem_cons.mp hg with hg | hg
+          · rw [hg] at hgx; exact hxp hgx.symm
+          · rcases hfc with h | h
+            · exact hxr (hgx.symm.trans h.1)
+            · have := hbel g hg
+              rw [hgx] at h; omega
+        · exact absurd hvo h
+      exact Reach.trans (Reach.symm hu'.symm (key a ha hax)) (key b hb hbx)
+    · have hx' : x ∈ s.visited → D s.disc x < D s.disc f.child := by
+        intro hv
+        apply Decidable.byContradiction
+        intro hn
+        exact hxs ⟨hv, by omega⟩
+      have hcx : f.child ≠ x := by
+        intro he
+        have := hx' (he ▸ hcv)
+        rw [← he] at this; omega
+      have hpc' : Reach (nbWithout nb x) f.parent f.child :=
+        Reach.single (nbWithout_mem.mpr ⟨fun h => hxp h.symm, hcnb, hcx⟩)
+      have key : ∀ v ∈ nodesOf (s.estack.drop (Pos s.loc (f.parent, f.child))),
+          Reach (nbWithout nb x) f.parent v := by
+        intro v hv
+        rcases hnodes v hv with h | ⟨h, h'⟩
+        · rw [h]; exact Reach.refl _
+        · exact Reach.trans hpc' (hTX _ hfm v h h' x hx')
+      exact Reach.trans (Reach.symm hu'.symm (key a ha)) (key b hb)
+
+theorem emit_hasEdge {nb : V → List V} {Vs : List V} {root : V} (hsym : ∀ a b, b ∈ nb a → a ∈ nb b) {s : BSt}
+    (h1 : Inv1 nb Vs s) (h4 : Inv4 root s) (hE : ES nb root s)
+    {f : Frame} {rest : List Frame} (hem : Emit s f rest) :
+    HasEdge nb (nodesOf (s.estack.drop (Pos s.loc (f.parent, f.child)))) := by
+  obtain ⟨hfm, hpc, hcp, hpv, hcv, hbel⟩ := emit_basic h1 h4 hem
+  intro v hv
+  obtain ⟨e, he, hve⟩ := mem_nodesOf_iff.mp hv
+  obtain ⟨i, hki, hie⟩ := mem_drop_iff.mp he
+  obtain ⟨_, _, r3⟩ := hE.real e (mem_of_getElem? hie)
+  by_cases hloop : e.1 = e.2
+  · have hev : e = (v, v) := by
+      rcases hve with h | h
+      · rw [h]; exact Prod.ext rfl hloop.symm
+      · rw [h]; exact Prod.ext hloop rfl
+    rw [hev] at hie
+    obtain ⟨j, q, hkj, _, hqv, hje⟩ := hE.loop _ hfm hcp i v hki hie
+    have hq : q ∈ nodesOf (s.estack.drop (Pos s.loc (f.parent, f.child))) :=
+      mem_nodesOf_iff.mpr ⟨(q, v), mem_drop_iff.mpr ⟨j, hkj, hje⟩, Or.inl rfl⟩
+    obtain ⟨_, _, r3'⟩ := hE.real _ (mem_of_getElem? hje)
+    exact ⟨q, hq, hqv, hsym _ _ r3'⟩
+  · rcases hve with h | h
+    · refine ⟨e.2, mem_nodesOf_iff.mpr ⟨e, he, Or.inr rfl⟩, ?_, ?_⟩
+      · rw [h]; exact fun h' => hloop h'.symm
+      · rw [h]; exact r3
+    · refine ⟨e.1, mem_nodesOf_iff.mpr ⟨e, he, Or.inl rfl⟩, ?_, ?_⟩
+      · rw [h]; exact hloop
+      · rw [h]; exact hsym _ _ r3
+
+theorem emit_nonempty {nb : V → List V} {Vs : List V} {root : V} {s : BSt}
+    (h1 : Inv1 nb Vs s) (h4 : Inv4 root s) (hE : ES nb root s)
+    {f : Frame} {rest : List Frame} (hem : Emit s f rest) :
+    nodesOf (s.estack.drop (Pos s.loc (f.parent, f.child))) ≠ [] := by
+  obtain ⟨hfm, hpc, hcp, hpv, hcv, hbel⟩ := emit_basic h1 h4 hem
+  have : f.parent ∈ nodesOf (s.estack.drop (Pos s.loc (f.parent, f.child))) :=
+    mem_nodesOf_iff.mpr ⟨(f.parent, f.child), mem_drop_iff.mpr ⟨_, Nat.le_refl _, hE.tree _ hfm hcp⟩, Or.inl rfl⟩
+  intro h; rw [h] at this; simp at this
+
+theorem nodup_insertSet {x : V} {l : List V} (h : l.Nodup) : (insertSet x l).Nodup := by
+  unfold insertSet
+  split
+  · exact h
+  · next hc =>
+    have : x ∉ l := by simpa using hc
+    exact List.nodup_cons.mpr ⟨this, h⟩
+
+theorem aps_step (nb : V → List V) (s : BSt) (h : s.aps.Nodup) : (bstep nb s).aps.Nodup := by
+  refine bstep_cases nb s (fun t => t.aps.Nodup) ?_ ?_ ?_ ?_ ?_ ?_ ?_ ?_ ?_
+  all_goals intros
+  all_goals first
+    | exact h
+    | exact nodup_insertSet h
+
+/-- all invariants -/
+structure InvB (nb : V → List V) (Vs : List V) (root : V) (s : BSt) : Prop where
+  a : InvA nb Vs root s
+  connX : ConnX nb s
+  cx : ∀ x, x ≠ root → Cx nb root x s
+  sepO : SepO nb Vs s
+  sepC : s.comps.Pairwise (SepRel nb Vs)
+  good : ∀ C ∈ s.comps, Bicon nb C ∧ HasEdge nb C ∧ C ≠ []
+  apsnd : s.aps.Nodup
+
+theorem invB_init (nb : V → List V) (Vs : List V) (root : V) (hr : root ∈ Vs) : InvB nb Vs root (init nb root) :=
+  ⟨invA_init nb Vs root hr, connX_init nb root, fun x _ => cx_init nb root x, sepO_init nb Vs root,
+    by simp [init], by intro C hC; simp [init] at hC, by simp [init]⟩
+
+theorem invB_step (nb : V → List V) (Vs : List V) (hu : Undirected nb Vs) (root : V) (s : BSt)
+    (h : InvB nb Vs root s) : InvB nb Vs root (bstep nb s) := by
+  have ha := h.a
+  have hsep := sep_step nb Vs root hu.symm s ha.i1 ha.i2 ha.i4 ha.low ha.nocross ha.conn ha.es h.sepO h.sepC
+  refine ⟨invA_step nb Vs hu root s ha, connX_step nb Vs root s ha.i1 ha.i4 h.connX,
+    fun x hx => cx_step nb Vs hu root x hx s ha.i1 ha.i4 ha.nocross ha.wit ha.conn ha.es (h.cx x hx),
+    hsep.1, hsep.2, ?_, aps_step nb s h.apsnd⟩
+  rcases comps_step nb root s ha.i4 with heq | ⟨f, rest, hem, hco, _, _⟩
+  · rw [heq]; exact h.good
+  · intro C hC
+    rw [hco] at hC
+    rcases List.mem_append.mp hC with hC | hC
+    · exact h.good C hC
+    · simp at hC
+      rw [hC]
+      exact ⟨emit_bicon hu ha.i1 ha.i2 ha.i4 ha.low ha.nocross ha.conn h.connX ha.es h.cx hem,
+        emit_hasEdge hu.symm ha.i1 ha.i4 ha.es hem, emit_nonempty ha.i1 ha.i4 ha.es hem⟩
+
+theorem invB_bgo (nb : V → List V) (Vs : List V) (hu : Undirected nb Vs) (root : V) (hr : root ∈ Vs) (n : Nat) :
+    InvB nb Vs root (bgo nb n (init nb root)) :=
+  bgo_inv nb (InvB nb Vs root) (invB_step nb Vs hu root) n _ (invB_init nb Vs root hr)
+
+/-- two components related by `SepRel` share at most the cut node -/
+theorem sepRel_share {nb : V → List V} {Vs : List V} {C C' : List V} (h : SepRel nb Vs C C') :
+    ∃ x0, ∀ v, v ∈ C → v ∈ C' → v = x0 := by
+  obtain ⟨x0, c, _, ha, hb⟩ := h
+  refine ⟨x0, fun v hv hv' => ?_⟩
+  apply Classical.byContradiction
+  intro hne
+  exact hb v hv' hne (ha v hv hne)
+
+theorem comps_share_one (nb : V → List V) (Vs : List V) (hu : Undirected nb Vs) (root : V) (hr : root ∈ Vs) :
+    let cs := (biccsFrom nb root (biccFuel nb Vs)).1
+    ∀ i j (hi : i < cs.length) (hj : j < cs.length), i ≠ j → ∀ x y, x ∈ cs[i] → x ∈ cs[j] → y ∈ cs[i] → y ∈ cs[j] →
+      x = y := by
+  have h := (invB_bgo nb Vs hu root hr (biccFuel nb Vs)).sepC
+  show ∀ i j (hi : i < (bgo nb (biccFuel nb Vs) (init nb root)).comps.length)
+    (hj : j < (bgo nb (biccFuel nb Vs) (init nb root)).comps.length), i ≠ j → ∀ x y,
+    x ∈ (bgo nb (biccFuel nb Vs) (init nb root)).comps[i] → x ∈ (bgo nb (biccFuel nb Vs) (init nb root)).comps[j] →
+    y ∈ (bgo nb (biccFuel nb Vs) (init nb root)).comps[i] → y ∈ (bgo nb (biccFuel nb Vs) (init nb root)).comps[j] →
+    x = y
+  generalize (bgo nb (biccFuel nb Vs) (init nb root)).comps = cs at h
+  rw [List.pairwise_iff_getElem] at h
+  intro i j hi hj hij x y hxi hxj hyi hyj
+  rcases Nat.lt_or_gt_of_ne hij with hlt | hlt
+  · obtain ⟨x0, hx0⟩ := sepRel_share (h i j hi hj hlt)
+    rw [hx0 x hxi hxj, hx0 y hyi hyj]
+  · obtain ⟨x0, hx0⟩ := sepRel_share (h j i hj hi hlt)
+    rw [hx0 x hxj hxi, hx0 y hyj hyi]
+
+theorem comp_biconnected (nb : V → List V) (Vs : List V) (hu : Undirected nb Vs) (root : V) (hr : root ∈ Vs) :
+    ∀ c ∈ (biccsFrom nb root (biccFuel nb Vs)).1, ∀ x a b, a ∈ c → b ∈ c → a ≠ x → b ≠ x →
+      Reach (nbWithout nb x) a b := by
+  intro c hc
+  exact ((invB_bgo nb Vs hu root hr (biccFuel nb Vs)).good c hc).1
+
+/-! ## `sortStrings` and `sameSets` -/
+
+theorem insertSorted_perm (x : String) (l : List String) : (insertSorted x l).Perm (x :: l) := by
+  induction l with
+  | nil => exact List.Perm.refl _
+  | cons y ys ih =>
+    simp only [insertSorted]
+    split
+    · exact List.Perm.refl _
+    · exact List.Perm.trans (List.Perm.cons y ih) (List.Perm.swap x y ys)
+
+theorem sortStrings_cons (x : String) (l : List String) : sortStrings (x :: l) = insertSorted x (sortStrings l) := rfl
+
+theorem sortStrings_perm (l : List String) : (sortStrings l).Perm l := by
+  induction l with
+  | nil => exact List.Perm.refl _
+  | cons x xs ih =>
+    rw [sortStrings_cons]
+    exact List.Perm.trans (insertSorted_perm x _) (List.Perm.cons x ih)
+
+theorem mem_sortStrings {y : String} {l : List String} : y ∈ sortStrings l ↔ y ∈ l :=
+  (sortStrings_perm l).mem_iff
+
+theorem insertSorted_comm (x y : String) (l : List String) :
+    insertSorted x (insertSorted y l) = insertSorted y (insertSorted x l) := by
+  induction l with
+  | nil =>
+    simp only [insertSorted]
+    by_cases hxy : x ≤ y <;> by_cases hyx : y ≤ x
+    · have := String.le_antisymm hxy hyx; subst this; rfl
+    · simp [hxy, hyx]
+    · simp [hxy, hyx]
+    · rcases String.le_total x y with h | h
+      · exact absurd h hxy
+      · exact absurd h hyx
+  | cons z l ih =>
+    by_cases hxz : x ≤ z <;> by_cases hyz : y ≤ z
+    · by_cases hxy : x ≤ y <;> by_cases hyx : y ≤ x
+      · have := String.le_antisymm hxy hyx; subst this; rfl
+      · simp [insertSorted, hxz, hyz, hxy, hyx]
+      · simp [insertSorted, hxz, hyz, hxy, hyx]
+      · rcases String.le_total x y with h | h
+        · exact absurd h hxy
+        · exact absurd h hyx
+    · have hyx : ¬ y ≤ x := fun h => hyz (String.le_trans h hxz)
+      simp [insertSorted, hxz, hyz, hyx]
+    · have hxy : ¬ x ≤ y := fun h => hxz (String.le_trans h hyz)
+      simp [insertSorted, hxz, hyz, hxy]
+    · simp [insertSorted, hxz, hyz, ih]
+
+theorem sort_perm_eq {l₁ l₂ : List String} (h : l₁.Perm l₂) : sortStrings l₁ = sortStrings l₂ := by
+  induction h with
+  | nil => rfl
+  | cons x _ ih => rw [sortStrings_cons, sortStrings_cons, ih]
+  | swap x y l => rw [sortStrings_cons, sortStrings_cons, sortStrings_cons, sortStrings_cons, insertSorted_comm]
+  | trans _ _ ih1 ih2 => rw [ih1, ih2]
+
+theorem sort_idem (l : List String) : sortStrings (sortStrings l) = sortStrings l :=
+  sort_perm_eq (sortStrings_perm l)
+
+theorem sort_eq_of_mem_iff {l₁ l₂ : List String} (h1 : l₁.Nodup) (h2 : l₂.Nodup) (h : ∀ v, v ∈ l₁ ↔ v ∈ l₂) :
+    sortStrings l₁ = sortStrings l₂ :=
+  sort_perm_eq ((List.perm_ext_iff_of_nodup h1 h2).mpr h)
+
+theorem mem_iff_of_sort_eq {l₁ l₂ : List String} (h : sortStrings l₁ = sortStrings l₂) (v : String) :
+    v ∈ l₁ ↔ v ∈ l₂ := by
+  rw [← mem_sortStrings (l := l₁), ← mem_sortStrings (l := l₂), h]
+
+theorem sameSets_intro {a b : List (List V)} (h1 : ∀ x ∈ a, sortStrings x ∈ b.map sortStrings)
+    (h2 : ∀ y ∈ b, sortStrings y ∈ a.map sortStrings) (h3 : a.length = b.length) : sameSets a b = true := by
+  unfold sameSets
+  simp only [Bool.and_eq_true, List.all_eq_true, List.contains_iff_mem, beq_iff_eq, List.length_map]
+  refine ⟨⟨?_, ?_⟩, h3⟩
+  · intro x hx
+    obtain ⟨x', hx', rfl⟩ := List.mem_map.mp hx
+    exact h1 x' hx'
+  · intro y hy
+    obtain ⟨y', hy', rfl⟩ := List.mem_map.mp hy
+    exact h2 y' hy'
+
+/-! ## TOP RUNG: the reported components are the blocks -/
+
+/-- the links between two different nodes, each once, smaller end first -/
+def linksOf (nb : V → List V) (Vs : List V) : List (V × V) := (edgesOf nb Vs).filter (fun e => e.1 != e.2)
+
+theorem mem_linksOf {nb : V → List V} {Vs : List V} {e : V × V} :
+    e ∈ linksOf nb Vs ↔ e.1 ∈ Vs ∧ e.2 ∈ nb e.1 ∧ e.1 ≤ e.2 ∧ e.1 ≠ e.2 := by
+  unfold linksOf edgesOf
+  rw [List.mem_filter, List.mem_eraseDups, List.mem_flatMap]
+  constructor
+  · rintro ⟨⟨a, ha, h⟩, hne⟩
+    obtain ⟨b, hb, hsome⟩ := List.mem_filterMap.mp h
+    split at hsome
+    · next hle =>
+      have : e = (a, b) := (Option.some.inj hsome).symm
+      subst this
+      exact ⟨ha, hb, hle, by simpa using hne⟩
+    · simp at hsome
+  · rintro ⟨h1, h2, h3, h4⟩
+    exact ⟨⟨e.1, h1, List.mem_filterMap.mpr ⟨e.2, h2, by rw [if_pos h3]⟩⟩, by simpa using h4⟩
+
+theorem mem_blocks {nb : V → List V} {Vs : List V} {B : List V} :
+    B ∈ blocks nb Vs ↔ ∃ e ∈ linksOf nb Vs,
+      B = sortStrings (nodesOf ((linksOf nb Vs).filter (sameBlock nb Vs e))) := by
+  unfold blocks linksOf
+  simp only [List.mem_eraseDups, List.mem_map, List.map_map]
+  constructor
+  · rintro ⟨e, he, rfl⟩; exact ⟨e, he, rfl⟩
+  · rintro ⟨e, he, rfl⟩; exact ⟨e, he, rfl⟩
+
+theorem nodup_blocks (nb : V → List V) (Vs : List V) : (blocks nb Vs).Nodup := by
+  unfold blocks
+  exact nodup_eraseDups_aux _ _ (Nat.le_refl _)
+
+theorem classOf_reach {nb : V → List V} {Vs : List V} (hu : Undirected nb Vs) (x a : V) (ha : a ∈ Vs) (hax : a ≠ x)
+    (b : V) : (classOf (nbWithout nb x) (Vs.filter (· != x)) a).contains b = true ↔ Reach (nbWithout nb x) a b := by
+  have hu' := nbWithout_undirected hu x
+  have ha' : a ∈ Vs.filter (· != x) := List.mem_filter.mpr ⟨ha, by simpa using hax⟩
+  have := (C15.findComp_exact (nbWithout nb x) _ hu' a ha' [] (by intro a ha; simp at ha) (by simp)).2.1 b
+  simp only [classOf, List.contains_iff_mem]
+  exact this
+
+theorem filter_pair_mem {u w x a : V} {t : List V} (h : [u, w].filter (· != x) = a :: t) :
+    (a = u ∨ a = w) ∧ a ≠ x := by
+  have ha : a ∈ [u, w].filter (· != x) := by rw [h]; simp
+  obtain ⟨h1, h2⟩ := List.mem_filter.mp ha
+  exact ⟨by simpa using h1, by simpa using h2⟩
+
+theorem filter_pair_ne_nil {u w x : V} (h : u ≠ w) : ∃ a t, [u, w].filter (· != x) = a :: t := by
+  by_cases hu : u = x
+  · have hw : w ≠ x := fun h' => h (hu.trans h'.symm)
+    refine ⟨w, [], ?_⟩
+    rw [List.filter_cons_of_neg (by simp [hu]), List.filter_cons_of_pos (by simpa using hw)]
+    rfl
+  · refine ⟨u, [w].filter (· != x), ?_⟩
+    rw [List.filter_cons_of_pos (by simpa using hu)]
+
+theorem separates_false {nb : V → List V} {Vs : List V} (hu : Undirected nb Vs) {x : V} {e f : V × V}
+    (he1 : e.1 ∈ Vs) (he2 : e.2 ∈ Vs)
+    (h : ∀ a, (a = e.1 ∨ a = e.2) → a ≠ x → ∀ b, (b = f.1 ∨ b = f.2) → b ≠ x → Reach (nbWithout nb x) a b) :
+    separates nb Vs x e f = false := by
+  unfold separates
+  simp only []
+  split
+  · next a _ b _ hre hrf =>
+    obtain ⟨ha1, ha2⟩ := filter_pair_mem hre
+    obtain ⟨hb1, hb2⟩ := filter_pair_mem hrf
+    have haV : a ∈ Vs := by rcases ha1 with h' | h' <;> rw [h'] <;> assumption
+    rw [(classOf_reach hu x a haV ha2 b).mpr (h a ha1 ha2 b hb1 hb2)]
+    rfl
+  · rfl
+
+theorem separates_true {nb : V → List V} {Vs : List V} (hu : Undirected nb Vs) {x : V} {e f : V × V}
+    (he1 : e.1 ∈ Vs) (he2 : e.2 ∈ Vs) (hene : e.1 ≠ e.2) (hfne : f.1 ≠ f.2)
+    (h : ∀ a, (a = e.1 ∨ a = e.2) → a ≠ x → ∀ b, (b = f.1 ∨ b = f.2) → b ≠ x → ¬ Reach (nbWithout nb x) a b) :
+    separates nb Vs x e f = true := by
+  unfold separates
+  simp only []
+  split
+  · next a _ b _ hre hrf =>
+    obtain ⟨ha1, ha2⟩ := filter_pair_mem hre
+    obtain ⟨hb1, hb2⟩ := filter_pair_mem hrf
+    have haV : a ∈ Vs := by rcases ha1 with h' | h' <;> rw [h'] <;> assumption
+    have hn := h a ha1 ha2 b hb1 hb2
+    have : (classOf (nbWithout nb x) (Vs.filter (· != x)) a).contains b = false := by
+      apply Bool.eq_false_iff.mpr
+      intro hc
+      exact hn ((classOf_reach hu x a haV ha2 b).mp hc)
+    rw [this]; rfl
+  · next hno =>
+    exfalso
+    obtain ⟨a, t, hre⟩ := filter_pair_ne_nil (x := x) hene
+    obtain ⟨b, t', hrf⟩ := filter_pair_ne_nil (x := x) hfne
+    exact hno a t b t' hre hrf
+
+theorem comps_blocks {nb : V → List V} {Vs : List V} (hu : Undirected nb Vs) (cs : List (List V))
+    (hgood : ∀ C ∈ cs, Bicon nb C ∧ HasEdge nb C ∧ C ≠ [])
+    (hsep : cs.Pairwise (SepRel nb Vs))
+    (hwf : ∀ C ∈ cs, (∀ v ∈ C, v ∈ Vs) ∧ C.Nodup)
+    (hcov : ∀ u v, u ∈ Vs → v ∈ nb u → u ≠ v → ∃ C ∈ cs, u ∈ C ∧ v ∈ C) :
+    sameSets cs (blocks nb Vs) = true := by
+  have hpair : ∀ C ∈ cs, ∀ C' ∈ cs, C = C' ∨ SepRel nb Vs C C' ∨ SepRel nb Vs C' C := by
+    intro C hC C' hC'
+    obtain ⟨i, hi, rfl⟩ := List.getElem_of_mem hC
+    obtain ⟨j, hj, rfl⟩ := List.getElem_of_mem hC'
+    have hp := List.pairwise_iff_getElem.mp hsep
+    rcases Nat.lt_trichotomy i j with h | h | h
+    · exact Or.inr (Or.inl (hp i j hi hj h))
+    · subst h; exact Or.inl rfl
+    · exact Or.inr (Or.inr (hp j i hj hi h))
+  have ord : ∀ v w, v ∈ Vs → w ∈ nb v → w ≠ v → ∃ e ∈ linksOf nb Vs, e = (v, w) ∨ e = (w, v) := by
+    intro v w hv hw hne
+    by_cases hle : v ≤ w
+    · exact ⟨(v, w), mem_linksOf.mpr ⟨hv, hw, hle, fun h => hne h.symm⟩, Or.inl rfl⟩
+    · have hle' : w ≤ v := by
+        rcases String.le_total v w with h | h
+        · exact absurd h hle
+        · exact h
+      exact ⟨(w, v), mem_linksOf.mpr ⟨hu.closed v hv w hw, hu.symm v w hw, hle', hne⟩, Or.inr rfl⟩
+  have key : ∀ e ∈ linksOf nb Vs, ∀ C ∈ cs, e.1 ∈ C → e.2 ∈ C →
+      ∀ v, v ∈ nodesOf ((linksOf nb Vs).filter (sameBlock nb Vs e)) ↔ v ∈ C := by
+    intro e he C hC h1 h2 v
+    obtain ⟨he1, he2, _, he4⟩ := mem_linksOf.mp he
+    have he2V : e.2 ∈ Vs := hu.closed _ he1 _ he2
+    constructor
+    · intro hv
+      obtain ⟨f', hf', hvf⟩ := mem_nodesOf_iff.mp hv
+      obtain ⟨hf'es, hsb⟩ := List.mem_filter.mp hf'
+      obtain ⟨hf1, hf2, _, hf4⟩ := mem_linksOf.mp hf'es
+      obtain ⟨C', hC', h1', h2'⟩ := hcov f'.1 f'.2 hf1 hf2 hf4
+      have hsb' : ∀ x ∈ Vs, separates nb Vs x e f' = false := by
+        intro x hx
+        unfold sameBlock at hsb
+        have := List.all_eq_true.mp hsb x hx
+        simpa using this
+      have haC : ∀ a, (a = e.1 ∨ a = e.2) → a ∈ C := by
+        intro a ha; rcases ha with h | h <;> rw [h] <;> assumption
+      have hbC : ∀ b, (b = f'.1 ∨ b = f'.2) → b ∈ C' := by
+        intro b hb; rcases hb with h | h <;> rw [h] <;> assumption
+      rcases hpair C hC C' hC' with h | ⟨x0, c, hx0, ha, hb⟩ | ⟨x0, c, hx0, ha, hb⟩
+      · rw [h]; rcases hvf with h' | h' <;> rw [h'] <;> assumption
+      · exfalso
+        have := separates_true hu (x := x0) he1 he2V he4 hf4 (by
+          intro a ha1 ha2 b hb1 hb2 hr
+          exact hb b (hbC b hb1) hb2 (Reach.trans (ha a (haC a ha1) ha2) hr))
+        rw [hsb' x0 hx0] at this; exact Bool.noConfusion this
+      · exfalso
+        have hu' := nbWithout_undirected hu x0
+        have := separates_true hu (x := x0) he1 he2V he4 hf4 (by
+          intro a ha1 ha2 b hb1 hb2 hr
+          exact hb a (haC a ha1) ha2 (Reach.trans (ha b (hbC b hb1) hb2) (Reach.symm hu'.symm hr)))
+        rw [hsb' x0 hx0] at this; exact Bool.noConfusion this
+    · intro hv
+      obtain ⟨hbi, hhe, _⟩ := hgood C hC
+      obtain ⟨w, hw, hwv, hwnb⟩ := hhe v hv
+      have hvV := (hwf C hC).1 v hv
+      obtain ⟨f', hf', hfeq⟩ := ord v w hvV hwnb hwv
+      have hbC : ∀ b, (b = f'.1 ∨ b = f'.2) → b ∈ C := by
+        intro b hb
+        rcases hfeq with h | h <;> rw [h] at hb <;> simp only [] at hb <;> rcases hb with h' | h' <;> rw [h'] <;>
+          assumption
+      have haC : ∀ a, (a = e.1 ∨ a = e.2) → a ∈ C := by
+        intro a ha; rcases ha with h | h <;> rw [h] <;> assumption
+      have hsb : sameBlock nb Vs e f' = true := by
+        unfold sameBlock
+        apply List.all_eq_true.mpr
+        intro x _
+        rw [separates_false hu he1 he2V (fun a ha1 ha2 b hb1 hb2 => hbi x a b (haC a ha1) (hbC b hb1) ha2 hb2)]
+        rfl
+      refine mem_nodesOf_iff.mpr ⟨f', List.mem_filter.mpr ⟨hf', hsb⟩, ?_⟩
+      rcases hfeq with h | h <;> rw [h]
+      · exact Or.inl rfl
+      · exact Or.inr rfl
+  have sortEq : ∀ e ∈ linksOf nb Vs, ∀ C ∈ cs, e.1 ∈ C → e.2 ∈ C →
+      sortStrings (sortStrings (nodesOf ((linksOf nb Vs).filter (sameBlock nb Vs e)))) = sortStrings C := by
+    intro e he C hC h1 h2
+    rw [sort_idem]
+    exact sort_eq_of_mem_iff (nodup_nodesOf _) (hwf C hC).2 (key e he C hC h1 h2)
+  have d1 : ∀ C ∈ cs, sortStrings C ∈ (blocks nb Vs).map sortStrings := by
+    intro C hC
+    obtain ⟨_, hhe, hne⟩ := hgood C hC
+    obtain ⟨v, hv⟩ := List.exists_mem_of_ne_nil C hne
+    obtain ⟨w, hw, hwv, hwnb⟩ := hhe v hv
+    obtain ⟨f', hf', hfeq⟩ := ord v w ((hwf C hC).1 v hv) hwnb hwv
+    have h12 : f'.1 ∈ C ∧ f'.2 ∈ C := by
+      rcases hfeq with h | h <;> rw [h] <;> exact ⟨by assumption, by assumption⟩
+    exact List.mem_map.mpr ⟨_, mem_blocks.mpr ⟨f', hf', rfl⟩, sortEq f' hf' C hC h12.1 h12.2⟩
+  have d2 : ∀ B ∈ blocks nb Vs, sortStrings B ∈ cs.map sortStrings := by
+    intro B hB
+    obtain ⟨e, he, rfl⟩ := mem_blocks.mp hB
+    obtain ⟨he1, he2, _, he4⟩ := mem_linksOf.mp he
+    obtain ⟨C, hC, h1, h2⟩ := hcov e.1 e.2 he1 he2 he4
+    exact List.mem_map.mpr ⟨C, hC, (sortEq e he C hC h1 h2).symm⟩
+  apply sameSets_intro d1 d2
+  have hA : (cs.map sortStrings).Nodup := by
+    unfold List.Nodup
+    rw [List.pairwise_map]
+    refine List.Pairwise.imp_of_mem ?_ hsep
+    intro C C' hC hC' hrel heq
+    obtain ⟨x0, hx0⟩ := sepRel_share hrel
+    obtain ⟨_, hhe, hne⟩ := hgood C hC
+    obtain ⟨v, hv⟩ := List.exists_mem_of_ne_nil C hne
+    obtain ⟨w, hw, hwv, _⟩ := hhe v hv
+    have hm := mem_iff_of_sort_eq heq
+    have e1 := hx0 v hv ((hm v).mp hv)
+    have e2 := hx0 w hw ((hm w).mp hw)
+    exact hwv (e2.trans e1.symm)
+  have hBm : (blocks nb Vs).map sortStrings = blocks nb Vs := by
+    have : ∀ B ∈ blocks nb Vs, sortStrings B = id B := by
+      intro B hB
+      obtain ⟨e, _, rfl⟩ := mem_blocks.mp hB
+      exact sort_idem _
+    rw [List.map_congr_left this, List.map_id]
+  have hBn : ((blocks nb Vs).map sortStrings).Nodup := by rw [hBm]; exact nodup_blocks nb Vs
+  have hperm : (cs.map sortStrings).Perm ((blocks nb Vs).map sortStrings) := by
+    apply (List.perm_ext_iff_of_nodup hA hBn).mpr
+    intro a
+    constructor
+    · intro ha
+      obtain ⟨C, hC, rfl⟩ := List.mem_map.mp ha
+      exact d1 C hC
+    · intro ha
+      obtain ⟨B, hB, rfl⟩ := List.mem_map.mp ha
+      exact d2 B hB
+  have := hperm.length_eq
+  simpa using this
+
+theorem aps_same {nb : V → List V} {Vs : List V} (hd : Vs.Nodup) (aps : List V) (hnd : aps.Nodup)
+    (hmem : ∀ a, a ∈ aps ↔ a ∈ Vs ∧ isCut nb Vs a = true) : sameSets [aps] [cutVertices nb Vs] = true := by
+  have hcv : (cutVertices nb Vs).Nodup := by
+    unfold cutVertices; exact hd.filter _
+  have heq : sortStrings aps = sortStrings (cutVertices nb Vs) := by
+    apply sort_eq_of_mem_iff hnd hcv
+    intro v
+    rw [hmem v]; unfold cutVertices; rw [List.mem_filter]
+  apply sameSets_intro
+  · intro x hx; simp at hx; subst hx; simp [heq]
+  · intro y hy; simp at hy; subst hy; simp [heq]
+  · rfl
+
+theorem biccExact_main (nb : V → List V) (Vs : List V) (hu : Undirected nb Vs) (hd : Vs.Nodup)
+    (hc : connectedB nb Vs = true) (root : V) (hr : root ∈ Vs) :
+    biccExactB nb Vs (biccsFrom nb root (biccFuel nb Vs)).1 (biccsFrom nb root (biccFuel nb Vs)).2 = true := by
+  have hB := invB_bgo nb Vs hu root hr (biccFuel nb Vs)
+  have hwf := wellformed nb Vs hu root hr
+  have h1 : sameSets (biccsFrom nb root (biccFuel nb Vs)).1 (blocks nb Vs) = true :=
+    comps_blocks hu _ hB.good hB.sepC hwf.1 (covers_links nb Vs hu root hr hc)
+  have h2 : sameSets [(biccsFrom nb root (biccFuel nb Vs)).2] [cutVertices nb Vs] = true := by
+    apply aps_same hd
+    · show (if (bgo nb (biccFuel nb Vs) (init nb root)).rootChildren > 1 then
+        insertSet root (bgo nb (biccFuel nb Vs) (init nb root)).aps else (bgo nb (biccFuel nb Vs) (init nb root)).aps).Nodup
+      split
+      · exact nodup_insertSet hB.apsnd
+      · exact hB.apsnd
+    · intro a
+      exact ⟨fun h => ⟨hwf.2 a h, aps_sound nb Vs hu hd root hr a h⟩,
+        fun h => aps_complete nb Vs hu hd root hr hc a h.1 h.2⟩
+  unfold biccExactB
+  rw [h1, h2]; rfl
 
 end Gaftools.Proofs.Bicc2
